@@ -79,9 +79,25 @@ pub fn exec_run_opt(script: &RunScript, keep_log: bool, keep_text: bool, watchdo
     reset_library();
   }
   tyme4rs::tyme::verif::set_hash_seed(script.hash_seed);
+  if script.alloc_period > 0 && script.threads.len() > 1 {
+    // With allocation yield points a thread could be parked inside a `Once` initialiser of one of
+    // the library's immutable lazy tables while another thread needs it. Touch those tables here
+    // (pure series evaluation and the leap table, laid out under this run's hash seed; none of the
+    // three mutexes, no memo).
+    use tyme4rs::tyme::util::ShouXingUtil;
+    for jd in [-730000.0f64, -547000.0, -182000.0, 0.0, 1095000.0] {
+      let _ = std::panic::catch_unwind(|| (ShouXingUtil::calc_shuo(jd), ShouXingUtil::calc_qi(jd)));
+    }
+    let _ = std::panic::catch_unwind(|| tyme4rs::tyme::lunar::LunarYear::from_year(2000).get_leap_month());
+    if !script.reset {
+      let _ = tyme4rs::tyme::lunar::verif_state();
+      let _ = tyme4rs::tyme::eightchar::verif_state();
+    }
+  }
   let evals: Arc<Mutex<Vec<EvalRec>>> = Arc::new(Mutex::new(Vec::new()));
   let seq: Arc<std::sync::atomic::AtomicU64> = Arc::new(std::sync::atomic::AtomicU64::new(0));
   let threads: Arc<Vec<Vec<Op>>> = Arc::new(script.threads.clone());
+  let alloc_period: u32 = script.alloc_period;
   let ev2 = evals.clone();
   let body = move |tid: usize| {
     let ops = &threads[tid];
@@ -91,6 +107,7 @@ pub fn exec_run_opt(script: &RunScript, keep_log: bool, keep_text: bool, watchdo
       if !sim().op_start(tid, idx as u32) {
         break;
       }
+      crate::sched::set_alloc_plan(alloc_period, (tid as u32).wrapping_mul(7).wrapping_add((idx as u32).wrapping_mul(13)));
       let mut stop_now = false;
       match op {
         Op::Q { q, stop } => {
